@@ -138,7 +138,9 @@ cdef inline bint validate_record(
     if not isinstance(datum, Mapping):
         return False
     _, fullname = schema_name(schema, parent_ns)
-    if "-type" in datum and datum["-type"] != fullname:
+    # The schema is parsed, so its name is the full name. `fullname` above is
+    # derived from the field path and is only right at the top level
+    if "-type" in datum and datum["-type"] != schema["name"]:
         return False
 
     for f in schema["fields"]:
